@@ -689,13 +689,13 @@ def r_keep(prog, tier):
                                      'this function moves punctuation only' % unparse(a.ast)
                             break
             # (d) tables with checked premises
-            if not ok and f.fq == 'transform.root_attach':
+            if not ok and _role(prog, f) == 'transform.root_attach':
                 prem = _root_attach_premise(f, d)
                 if prem:
                     ok = True
                     detail = '(d) the parent is the root, and the root child holding the first token ' \
                              'never moves: ' + prem
-            if not ok and f.fq == 'trees.delete_terminal':
+            if not ok and _role(prog, f) == 'trees.delete_terminal':
                 prem = _delete_terminal_premise(f, d)
                 if prem:
                     ok = True
@@ -749,11 +749,11 @@ def r_keep(prog, tier):
                     verdict = None
                     detail = 'a condition on the children of the parent guards the move (`%s`) but not in a form ' \
                              'this rule can evaluate' % mention[-1][:60]
-                elif f.fq == 'trees.delete_terminal' and not cfg.nodes[d.node].loops:
+                elif _role(prog, f) == 'trees.delete_terminal' and not cfg.nodes[d.node].loops:
                     verdict = False
                     detail = 'the removal is not part of a loop that climbs while the parent becomes childless: a ' \
                              'constituent left without tokens stays in the tree'
-                elif f.fq in ('trees.delete_terminal', 'transform.root_attach'):
+                elif _role(prog, f) in ('trees.delete_terminal', 'transform.root_attach'):
                     verdict = None
                     detail = 'premise of the table entry not recognised in this shape'
             obs.append(Ob('R-KEEP', f.fq, 'detach `%s` never leaves a childless constituent'
@@ -801,6 +801,29 @@ def _all_punct_over(expr, ppaths):
     if owner not in ppaths:
         return False
     return _word_in(g.elt, gen.target.id, ('PUNCT', 'PAIRPUNCT')) is not None
+
+
+_ROLE_CACHE = {}
+
+
+def _role(prog, f):
+    """The public function a private worker does the work of: `_root_attach` called by nothing but `root_attach` has the
+    table entries of `transform.root_attach`."""
+    key = (id(prog), f.fq)
+    if key not in _ROLE_CACHE:
+        role = f.fq
+        if f.node.name.startswith('_') and f.cls is None:
+            callers = set()
+            for g in prog.all_funcs():
+                if g.node is f.node:
+                    continue
+                for c_ in walk_own(g.node):
+                    if isinstance(c_, ast.Call) and prog.callee(c_, g) == (f.module.name, f.qual):
+                        callers.add(g.fq)
+            if len(callers) == 1:
+                role = sorted(callers)[0]
+        _ROLE_CACHE[key] = role
+    return _ROLE_CACHE[key]
 
 
 def _root_attach_premise(f, d):
@@ -1607,6 +1630,20 @@ def r_punctsel(prog, tier):
             if lp:
                 brk = [n for n in cfg.eval_nodes() if n.kind == 'stmt' and isinstance(n.ast, (ast.Break, ast.Return))
                        and n.loops and n.loops[-1] == lp[0] and len(n.loops) == 1]
+                def _exhausted(b_):
+                    # `v = next(it, None)` ... `if v is None: break`: the end of the candidates, not an early exit
+                    as_ = [a for a in cfg.assumes_at(b_.id) if lp[0] in a.loops and not (isinstance(a.ast, ast.Constant))]
+                    if len(as_) != 1 or not as_[0].pol:
+                        return False
+                    t_ = as_[0].ast
+                    if not (isinstance(t_, ast.Compare) and len(t_.ops) == 1 and isinstance(t_.ops[0], ast.Is)
+                            and isinstance(t_.left, ast.Name) and isinstance(t_.comparators[0], ast.Constant)
+                            and t_.comparators[0].value is None):
+                        return False
+                    dv_ = [v_ for (_, v_) in name_defs(f, t_.left.id)]
+                    return bool(dv_) and all(isinstance(v_, ast.Call) and unparse(v_.func) == 'next' and len(v_.args) == 2
+                                             and isinstance(v_.args[1], ast.Constant) and v_.args[1].value is None for v_ in dv_)
+                brk = [b for b in brk if not _exhausted(b)]
                 for b in brk:
                     conds = ' and '.join(('' if a.pol else 'not ') + unparse(a.ast) for a in cfg.assumes_at(b.id) if lp[0] in a.loops)
                     obs.append(Ob('R-PUNCTSEL', f.fq, 'the loop over the punctuation tokens looks at every token', False,
